@@ -374,6 +374,9 @@ def _check(pid, tier, seed, entries, tmp, t0, level, extra_assumptions):
         log("  model=%s" % json.dumps(o["model"])[:600])
     if violations:
         return 1
+    for rec in unconfirmed:
+        # the solver says violated, the native run does not show it: encoding, stub or replay is wrong -> inconclusive, never a pass
+        errors.append("%s: counterexample for %s did not reproduce natively (inconclusive)" % (rec["harness"], rec["obligation"]))
     if errors:
         for e in errors:
             print("ERROR property=%s %s" % (pid, e))
